@@ -223,11 +223,37 @@ def apply_fn_sections(s, fnsec, item_lo, item_hi, log, copies, skip=frozenset())
 
 def inject(s, vc_files, skip=frozenset()):
     """returns (text, info) where info has fn->props map, wrapped fn names, root text"""
-    info = {'fns': {}, 'items': [], 'rewrites': []}
+    info = {'fns': {}, 'items': [], 'rewrites': [], 'lost_fns': {}}
     LOST_HINTS.clear()
     root_txt = []
     log = []
     deferred = []
+    dropped = set()
+
+    def fn_props(sub):
+        pr = []
+        for p_ in sub.arg.split()[1:]:
+            if p_.startswith('props='):
+                pr = p_[6:].split(',')
+        return pr
+
+    def lose_fn(top, name, reason):
+        pr = []
+        for sub in top.subs:
+            if sub.kind == 'fn' and sub.arg.split()[0] == name:
+                pr += fn_props(sub)
+        info['lost_fns'][name] = {'reason': reason, 'props': pr, 'missing': True}
+
+    def drop_top(top, reason):
+        # the item a contract section is written for is gone on this tree: the section is dropped, the properties
+        # of its functions are UNDECIDED, everything else is still decided
+        dropped.add(id(top))
+        for sub in top.subs:
+            if sub.kind == 'fn':
+                info['lost_fns'][sub.arg.split()[0]] = {'reason': 'item not found: %s' % reason, 'props': fn_props(sub), 'missing': True}
+        if not any(sub.kind == 'fn' for sub in top.subs):
+            info['lost_fns']['<item %s>' % top.arg] = {'reason': 'item not found: %s' % reason, 'props': [], 'missing': True}
+
     for path in vc_files:
         tops = parse_vc(path)
         for top in tops:
@@ -270,20 +296,32 @@ def inject(s, vc_files, skip=frozenset()):
             m = code_mask(s)
             if fn_names is not None and not re.search(r'#\d+$', top.arg.rsplit(':', 1)[0].strip()):
                 # pick the impl block that contains the named fns
-                cand = None
+                # (a fn that is gone on this tree is dropped from the list and recorded; its properties are UNDECIDED)
+                cand, best = None, []
                 for k in range(len(list(find_code(s, m, pat)))):
                     st, ls, bo, bc = item_span(s, m, pat, k)
-                    try:
-                        for fnm in fn_names:
+                    found = []
+                    for fnm in fn_names:
+                        try:
                             fn_span(s, m, fnm, bo, bc)
-                        cand = k
-                        break
-                    except Lost:
-                        continue
+                            found.append(fnm)
+                        except Lost:
+                            pass
+                    if len(found) > len(best):
+                        cand, best = k, found
                 if cand is None:
-                    raise Lost('no impl block %s contains %s' % (pat, fn_names))
+                    drop_top(top, 'no impl block %s contains any of %s' % (pat, fn_names))
+                    continue
+                for fnm in fn_names:
+                    if fnm not in best:
+                        lose_fn(top, fnm, 'function not found in impl block %s' % pat)
+                fn_names = best
                 nth = cand
-            st, ls, bo, bc = item_span(s, m, pat, nth)
+            try:
+                st, ls, bo, bc = item_span(s, m, pat, nth)
+            except Lost as e:
+                drop_top(top, str(e))
+                continue
             marker = '/*VS:%s:%d*/' % (os.path.basename(top.src), top.lineno)
             if fn_names is not None:
                 # X9: split the impl block
@@ -337,10 +375,22 @@ def inject(s, vc_files, skip=frozenset()):
                     info['fns'].setdefault(name, set()).update(props)
                     # tag the fn header with its properties (read back by checklib.fn_table)
                     m3 = code_mask(s)
-                    fst, fls, fbo, fbc = fn_span(s, m3, name, item_lo, item_hi())
+                    try:
+                        fst, fls, fbo, fbc = fn_span(s, m3, name, item_lo, item_hi())
+                    except Lost as e:
+                        # the function is gone on this tree: its contract is dropped, its properties are UNDECIDED
+                        info['lost_fns'][name] = {'reason': 'function not found: %s' % e, 'props': props, 'missing': True}
+                        continue
                     k = s.index('fn ' + name, fls) + 3 + len(name)
                     s = s[:k] + '/*PROPS:%s*/' % ','.join(props) + s[k:]
-                    s = apply_fn_sections(s, sub, item_lo, item_hi, log, copies, skip)
+                    try:
+                        s = apply_fn_sections(s, sub, item_lo, item_hi, log, copies, skip)
+                    except Lost as e:
+                        # a loop / statement anchor of this function is gone: keep the contract as an assumption for
+                        # callers (external_body), drop the proof text; the function's properties are UNDECIDED
+                        info['lost_fns'][name] = {'reason': str(e), 'props': props, 'missing': False}
+                        copies = []
+                        s = apply_fn_sections(s, sub, item_lo, item_hi, log, copies, frozenset(skip) | {name})
                     if copies:
                         sec = Section('module', '', top.lineno, top.src)
                         sec.owner = top
@@ -381,6 +431,8 @@ def inject(s, vc_files, skip=frozenset()):
         owner = top.owner
         if owner is None:
             raise SystemExit('%s:%d module without item' % (top.src, top.lineno))
+        if id(owner) in dropped:
+            continue
         mk = '/*VS:%s:%d*/' % (os.path.basename(owner.src), owner.lineno)
         k = s.find(mk)
         if k < 0:
